@@ -22,7 +22,11 @@
    the direct IKNPSender.Send rejects must make COT.Send / ROT.Send return a
    non-nil error with nothing sent and no wire set, each accepted one must not
    fail, honest wrapper runs must transfer the chosen labels; plus a static
-   inventory of deferred closures in ot/*.go that overwrite a named result. *)
+   inventory of deferred closures in ot/*.go that overwrite a named result.
+   Build environments: mul128 is the amd64 assembly or mul128Generic (no other
+   implementation, no purego tag); C15_clmul_generic is about the model with
+   unbounded naturals, the harness ties BOTH dispatches - amd64 and a
+   GOARCH=386 child (32-bit uint) built and run on every check - to clmul. *)
 From Coq Require Import ZArith NArith List Bool.
 From Mpc Require Import OT.Gf128 OT.Gf128Proof OT.Kos OT.KosProof OT.RunC15 Gen.Consts.
 Import ListNotations.
